@@ -144,19 +144,27 @@ Definition min_iri_text (dc : dcfg) (d : exdict) (sh : shape) : str + derr :=
   else inl [].
 
 (** [_serialize_example].  [shape_example] answers [False] for an unknown
-    class and [None] for a class without example; [prefixize_uri_if_possible]
-    then calls [.startswith] on it as soon as there is one namespace
-    (AttributeError); with no namespace at all the value is formatted. *)
+    class and [None] for a class without example (a printed shape whose class
+    has no instance: a requested target class, [remove_empty_shapes=False]).
+    Two texts of the function ([Gen/Consts.v: c_example_none_guard], set by
+    tools/gen_consts.py from the source):
+    - [false]: the candidate goes to [prefixize_uri_if_possible] as it is,
+      which calls [.startswith] on it as soon as there is one namespace
+      (AttributeError; finding C17-F4); with no namespace at all the value is
+      formatted;
+    - [true]: [if candidate is None: return ""] first -- the shape is printed
+      without an example.  [False] (unknown class) is not [None]: unchanged. *)
 Definition example_text (z : sercfg) (dc : dcfg) (d : exdict) (sh : shape) : str + derr :=
   if in_modes (d_mode dc) c17d_modes_shape_example then
     match dget d (sh_class sh) with
     | Some e =>
       match e_example e with
       | Some cand => inl (c17d_inst_pre ++ iri_or_prefixed (z_ns z) cand ++ c17d_inst_post)
-      | None => match z_ns z with
-                | [] => inl (c17d_inst_pre ++ Str "<None>" ++ c17d_inst_post)
-                | _ :: _ => inr (DE REAttr)
-                end
+      | None => if c_example_none_guard then inl []
+                else match z_ns z with
+                     | [] => inl (c17d_inst_pre ++ Str "<None>" ++ c17d_inst_post)
+                     | _ :: _ => inr (DE REAttr)
+                     end
       end
     | None => match z_ns z with
               | [] => inl (c17d_inst_pre ++ Str "<False>" ++ c17d_inst_post)
